@@ -55,6 +55,20 @@ def tasks(tier):
                    sleeper="call" if "deco" not in e else "policy", max_unknown=None,
                    strat_menu=[1, 0], strat_free=True)
         out.append({"family": "abort-flag", "cfg": cfg, "entry": e, "bound": 1, "weight": 2})
+    # exception classes that derive from a cancellation type *and* from Exception (a driver's
+    # PoolCancelled(CancelledError, RuntimeError)) are still cancellation-type exceptions
+    for hd, e in itertools.product([None, "call"], Q4 + POL + POL0 + ["RetryPolicy.call", "deco", "adeco"]):
+        cfg = dict(M=M if "0" not in e else 1, alphabet=["ok", "x:T", "hyb:cancel", "hyb:exit", "hyb:kbd"], abort=False,
+                   handler=hd if "deco" not in e else None, handler_menu=["SLEEP"],
+                   sleeper="call" if "deco" not in e else "policy", max_unknown=None)
+        out.append({"family": "cancel-hybrid", "cfg": cfg, "entry": e, "bound": 0})
+    # abort_if is a callable object whose truth value is False (an un-set stop token)
+    for mode, e in itertools.product(["poll", "flag"], Q4 + POL[:2] + ["RetryPolicy.call", "AsyncRetryPolicy.call", "deco", "adeco", "RetryCfg.call",
+                                                      "Retry.context", "AsyncRetry.context"]):
+        cfg = dict(M=M, alphabet=["ok", "x:T", "r:T"], abort=True, abort_mode=mode,
+                   abort_kind="falsy-object", sleeper="call" if "deco" not in e else "policy",
+                   max_unknown=None, strat_menu=[1, 0], strat_free=True)
+        out.append({"family": "abort-falsy-token", "cfg": cfg, "entry": e, "bound": 1})
     for e in POL0:
         cfg = dict(M=1, alphabet=ALPHA, abort=True)
         out.append({"family": "abort-noretry", "cfg": cfg, "entry": e, "bound": 1})
